@@ -875,6 +875,17 @@ def _normalise_events(events):
             v = strip_load(e['e'])
             if v.get('k') == 'var' and v['name'] == '__ptr':
                 continue
+        if e['ev'] == 'decl' and 'init' in e and not e.get('static') and 'bound' not in e and 'vla_size' not in e \
+                and isinstance(e['init'], dict) and e['init'].get('k') not in ('init', 'compound', 'str'):
+            # `T x = E;` is `T x; x = E;`
+            d = {k: v for k, v in e.items() if k != 'init'}
+            out.append(d)
+            lhs = {'k': 'var', 'name': e['name'], 'vk': 'local', 'type': e.get('type', '')}
+            if 'record' in e:
+                lhs['record'] = e['record']
+                lhs['ptr'] = e.get('ptr', False)
+            out.append({'ev': 'store', 'op': '=', 'lhs': lhs, 'rhs': e['init'], 'loc': e['loc'], 'used': False, 'from_decl': True})
+            continue
         out.append(e)
     res = []
     i = 0
